@@ -44,13 +44,17 @@ func verifDerr(class int64) error {
 	return verifOther
 }
 
+func verifCtxE(e error) bool {
+	return errors.Is(e, context.Canceled) || errors.Is(e, context.DeadlineExceeded)
+}
+
 func verifSeen(err, derr error, invoked int64) int64 {
 	switch {
 	case err == nil:
 		return breaker.VSNil
 	case invoked == 0 && err == breaker.ErrServiceUnavailable:
 		return breaker.VSBreakerUnavailable
-	case invoked == 0 && err == context.Canceled:
+	case invoked == 0 && breaker.VerifIsCtxErr(err):
 		return breaker.VSCtxErr
 	case derr != nil && err == derr:
 		return breaker.VSSame
@@ -79,16 +83,11 @@ func TestVerifC01W(t *testing.T) {
 		}
 	}()
 	timex.SetFakeNow(time.Duration(1e15))
-	cancelled, cancel := context.WithCancel(context.Background())
-	cancel()
 	for _, c := range cases {
 		out := breaker.VerifWOut{ID: c.ID}
 		for i, k := range c.Calls {
-			kind, rej, ctxdone, class := k[0], k[1] == 1, k[2] == 1, k[3]
-			ctx := context.Background()
-			if ctxdone {
-				ctx = cancelled
-			}
+			kind, rej, class := k[0], k[1] == 1, k[3]
+			ctx, atReturn := breaker.VerifCtx(k[2])
 			if kind == 6 {
 				o, err := verifReal(t, ctx, rej, class)
 				if err != nil {
@@ -111,6 +110,7 @@ func TestVerifC01W(t *testing.T) {
 			pv := &struct{ n int }{i}
 			down := func() error {
 				invoked++
+				atReturn() // modes 2, 3: the context is done when the next hook returns / panics
 				if class == breaker.VDPanic {
 					panic(pv)
 				}
@@ -204,7 +204,7 @@ func verifReal(t *testing.T, ctx context.Context, rej bool, class int64) ([]int6
 	if s.CommandCount() > n0 {
 		invoked = 1
 	}
-	if class == breaker.VDOther && e != nil && e != breaker.ErrServiceUnavailable && !errors.Is(e, context.Canceled) {
+	if class == breaker.VDOther && e != nil && e != breaker.ErrServiceUnavailable && !verifCtxE(e) {
 		invoked = 1 // miniredis does not count commands it answers with the injected error
 	}
 	after := p.Sums()
@@ -217,7 +217,7 @@ func verifReal(t *testing.T, ctx context.Context, rej bool, class int64) ([]int6
 	switch {
 	case e == nil:
 		sk = breaker.VSNil
-	case invoked == 0 && errors.Is(e, context.Canceled):
+	case invoked == 0 && verifCtxE(e):
 		sk = breaker.VSCtxErr
 	case e == breaker.ErrServiceUnavailable:
 		sk = breaker.VSBreakerUnavailable
